@@ -221,10 +221,12 @@ pub fn common_classes(mut v: V, spec: &FnSpec, c: &CallCase, out: Option<&ExecOu
     let lit = c.args.iter().any(|a| a.pos == Pos::Lit && call::lit(&a.v).is_some());
     let exact = c.args.iter().any(|a| a.pos == Pos::Exact || (a.pos == Pos::Lit && call::lit(&a.v).is_none()));
     let any = c.args.iter().any(|a| a.pos == Pos::Any);
+    let union = c.args.iter().any(|a| matches!(a.pos, Pos::Union(_)));
     let optional = c.args.iter().any(|a| spec.param(&a.kw).is_some_and(|p| !p.required));
     v.class_if(lit, "pos_literal")
         .class_if(exact, "pos_exact_typed")
         .class_if(any, "pos_any_typed")
+        .class_if(union, "pos_union_typed")
         .class_if(optional, "optional_present")
         .class_if(!spec.wrong_kind_args(c).is_empty(), "wrong_kind_injected")
         .class_if(c.closure.is_some(), "closure")
